@@ -369,3 +369,22 @@ def f3(ctx, fx):
                         ctx.finding("C10.F3", fn, "consumes:%s" % f, "the format-specific assembly mutably borrows `%s`, state that create_presentation never re-initialises: the outcome of a later call differs between Compact and JSON" % f, line=line)
     if nbad == 0:
         ctx.ok("C10.F3", fn, "assembly", "format-exclusive blocks only read holder state")
+    # the JSON envelope carries the same disclosure list, element for element and in the same order, as the Compact text: its `disclosures`
+    # member is a whole-field copy of hs_disclosures (the list the Compact join and the KB-JWT's sd_hash are computed from), never a
+    # filtered / retained / re-sorted version of what the envelope held before
+    P = fx.view(entry)
+    ws = common.struct_field_writes(fx, "SDJWTJson", "disclosures", fns=[P]) or []
+    n = 0
+    for w in ws:
+        if w["how"] == "init" and (w["fn"].is_macro_generated() or w["value"] is None):
+            continue
+        n += 1
+        if w["how"] in ("mutborrow", "partial"):
+            ctx.finding("C10.F3", P, "json-disclosures", "the JSON envelope's disclosure list is edited in place (retain/sort/push …) instead of being replaced by the selected list: its order or content can "
+                        "differ from the Compact form and from the sequence the KB-JWT's sd_hash covers", line=w["line"])
+        elif w["value"] is not None and must(w["value"], lambda x: x.kind == "field" and x.d.get("name") == "hs_disclosures") and not may(w["value"], lambda x: x.kind == "call" and x.d["term"].get("name") in
+                                                                                                                               ("filter", "rev", "skip", "take", "sort", "dedup", "retain", "filter_map", "step_by")):
+            ctx.ok("C10.F3", P, "json-disclosures", "the JSON envelope's `disclosures` is a copy of hs_disclosures", line=w["line"])
+        else:
+            ctx.finding("C10.F3", P, "json-disclosures", "the JSON envelope's `disclosures` is not a plain copy of the selected list hs_disclosures: %s" % (vstr(w["value"], 4) if w["value"] is not None else w["how"]), line=w["line"])
+    ctx.floor("C10.F3", "writes of the JSON envelope's disclosure list in create_presentation", n, 1)
